@@ -85,7 +85,7 @@ def scalarNonStr : Val → Bool
 inductive Shape (O : Oracle) : Val → Val → Prop
   | same (v) : Shape O v v
   | load (s L) : loadIfStr O (.str s) = L → scalarNonStr L = true → Shape O (.str s) L
-  | flt (v i) : loadIfStr O v = .int i → Shape O v (.flt (toFlt O i))
+  | flt (v i r) : loadIfStr O v = .int i → toFlt O i = some r → Shape O v (.flt r)
   | enum (s c) : Shape O (.str s) (.enum c s)
   | seqList (v xs ys) : seqItems v = some xs → Shape O v (.list ys)
   | seqTuple (v xs ys) : seqItems v = some xs → Shape O v (.tuple ys)
@@ -108,10 +108,10 @@ theorem leaf_shape (O : Oracle) (l : Leaf) (v w : Val) (h : adaptLeaf O l v = .o
   · split at h <;> simp at h
     subst h; rename_i i hi
     exact shape_of_load O v _ hi rfl
-  · split at h <;> simp at h
-    · subst h; rename_i i hi; exact .flt v i hi
-    · subst h; rename_i r hr
-      exact shape_of_load O v _ hr rfl
+  · have h' : adaptLeaf O .float v = .ok w := by simpa only [adaptLeaf] using h
+    obtain ⟨r, rfl, hr | ⟨i, hi, hf⟩⟩ := adaptLeaf_float_ok O v w h'
+    · exact shape_of_load O v _ hr rfl
+    · exact .flt v i r hi hf
   · split at h <;> simp at h
     subst h; rename_i b hb
     exact shape_of_load O v _ hb rfl
@@ -167,11 +167,11 @@ theorem leaf_mono (O : Oracle) (l : Leaf) (v w : Val) (hs : Shape O v w) (e : Er
     cases l <;> simp only [adaptLeaf] at h ⊢
     · simp at h
     all_goals (rw [hn]; rw [hL] at h; exact ⟨e, h⟩)
-  | flt v i hi =>
+  | flt v i r hi hf =>
     cases l <;> simp only [adaptLeaf] at h ⊢
     · cases v <;> simp [loadIfStr] at hi ⊢
     · rw [hi] at h; simp at h
-    · rw [hi] at h; simp at h
+    · rw [hi] at h; simp [hf] at h
     · simp [loadIfStr]
     · simp [loadIfStr]
   | enum s c =>
@@ -190,7 +190,7 @@ theorem enum_mono (O : Oracle) (c : Nat) (ms : List String) (v w : Val) (hs : Sh
   cases hs with
   | same => exact ⟨e, h⟩
   | load s _ hL hsc => cases w <;> simp [scalarNonStr] at hsc <;> simp [adaptEnum]
-  | flt v i hi => simp [adaptEnum]
+  | flt v i r hi hf => simp [adaptEnum]
   | enum s c' =>
     simp only [adaptEnum, Bool.false_eq_true, if_false] at h ⊢
     split at h
@@ -220,7 +220,7 @@ theorem strlit_mono (O : Oracle) (ls : List Lit) (hl : ls.all Lit.isStr = true) 
   cases hs with
   | same => exact ⟨e, h⟩
   | load s _ hL hsc => exact ⟨_, strlit_reject_nonstr O ls hl w (by cases w <;> simp [scalarNonStr] at hsc <;> rfl)⟩
-  | flt v i hi => exact ⟨_, strlit_reject_nonstr O ls hl _ rfl⟩
+  | flt v i r hi hf => exact ⟨_, strlit_reject_nonstr O ls hl _ rfl⟩
   | enum s c => exact ⟨_, strlit_reject_nonstr O ls hl _ rfl⟩
   | seqList v xs ys hx => exact ⟨_, strlit_reject_nonstr O ls hl _ rfl⟩
   | seqTuple v xs ys hx => exact ⟨_, strlit_reject_nonstr O ls hl _ rfl⟩
@@ -493,7 +493,9 @@ theorem leaf_kind (O : Oracle) (n : Nat) (l : Leaf) (v w : Val) (h : adaptLeaf O
   cases l <;> simp only [adaptLeaf] at h
   · cases v <;> simp at h; subst h; exact .same rfl
   · split at h <;> simp at h; subst h; exact .scalar (by simp [seqItems]) (by simp)
-  · split at h <;> simp at h <;> (subst h; exact .scalar (by simp [seqItems]) (by simp))
+  · have h' : adaptLeaf O .float v = .ok w := by simpa only [adaptLeaf] using h
+    obtain ⟨r, rfl, _⟩ := adaptLeaf_float_ok O v w h'
+    exact .scalar (by simp [seqItems]) (by simp)
   · split at h <;> simp at h; subst h; exact .scalar (by simp [seqItems]) (by simp)
   · split at h <;> simp at h; subst h; exact .scalar (by simp [seqItems]) (by simp)
 
@@ -649,7 +651,9 @@ theorem leaf_idem (O : Oracle) (l : Leaf) (v w : Val) (h : adaptLeaf O l v = .ok
   cases l <;> simp only [adaptLeaf] at h
   · cases v <;> simp at h; subst h; simp [adaptLeaf]
   · split at h <;> simp at h; subst h; simp [adaptLeaf, loadIfStr]
-  · split at h <;> simp at h <;> (subst h; simp [adaptLeaf, loadIfStr])
+  · have h' : adaptLeaf O .float v = .ok w := by simpa only [adaptLeaf] using h
+    obtain ⟨r, rfl, _⟩ := adaptLeaf_float_ok O v w h'
+    simp [adaptLeaf, loadIfStr]
   · split at h <;> simp at h; subst h; simp [adaptLeaf, loadIfStr]
   · split at h <;> simp at h; subst h; simp [adaptLeaf, loadIfStr]
 
@@ -842,7 +846,7 @@ theorem shape_isStr {O : Oracle} {v w : Val} (hs : Shape O v w) (hw : isStr w = 
   cases hs with
   | same => rfl
   | load s _ hL hsc => cases w <;> simp [scalarNonStr] at hsc <;> simp [isStr] at hw
-  | flt v i hi => simp [isStr] at hw
+  | flt v i r hi hf => simp [isStr] at hw
   | enum s c => simp [isStr] at hw
   | seqList v xs ys hx => simp [isStr] at hw
   | seqTuple v xs ys hx => simp [isStr] at hw
